@@ -544,6 +544,11 @@ func VerifyRangeProof(rootHash common.Hash, firstKey []byte, lastKey []byte, key
 	if len(firstKey) != len(lastKey) {
 		return false, errors.New("inconsistent edge keys")
 	}
+	// Entries outside of the requested range cannot be checked against the two edge
+	// proofs (their path may end in an unresolved hash node), so refuse them.
+	if bytes.Compare(keys[0], firstKey) < 0 || bytes.Compare(keys[len(keys)-1], lastKey) > 0 {
+		return false, errors.New("range contains keys outside of the edge keys")
+	}
 	// Convert the edge proofs to edge trie paths. Then we can
 	// have the same tree architecture with the original one.
 	// For the first edge proof, non-existent proof is allowed.
